@@ -50,8 +50,12 @@ def configs(tier, seed):
     out.append(('specs/1d', dict(kind='specs', shape=[3])))
     out.append(('specs/2d', dict(kind='specs', shape=[2, 3])))
     out.append(('insert-append/1d+1d', dict(kind='insert', parts=[[2], [3]])))
-    out.append(('insert-append/2d+1d+1d', dict(kind='insert', parts=[[2, 1], [2], [1]])))
-    out.append(('insert-append/1d+2d+1d', dict(kind='insert', parts=[[2], [1, 2], [2]])))
+    if tier == 'thorough':
+        out.append(('insert-append/2d+1d+1d', dict(kind='insert', parts=[[2, 1], [2], [1]])))
+        out.append(('insert-append/1d+2d+1d', dict(kind='insert', parts=[[2], [1, 2], [2]])))
+    for parts in ([[2, 2], [3], [2]], [[2], [2, 3], [2]], [[2, 3], [2, 2]], [[1], [3, 2], [2], [2, 2]]):
+        out.append(('insert-append-concrete/%s' % '+'.join('x'.join(map(str, p)) for p in parts),
+                    dict(kind='insert-concrete', parts=parts)))
     out.append(('squeeze-byaxis/3d', dict(kind='squeeze', shape=[2, 1, 3])))
     out.append(('shared-grid/length-1-axis', dict(kind='shared', shape=[1, 3])))
     return out
@@ -299,6 +303,40 @@ def case(ctx, kind, shape=None, nob=None, parts=None):
             compare('insert-two-at-once-front', ps[2].insert(0, ps[0], ps[1]), [0, 1, 2])
         if ctx.canary:
             ctx.eq('canary', lims[0][0][0], lims[0][0][0] + 1)
+        return
+    if kind == 'insert-concrete':
+        # axis bookkeeping of multi-argument insert/append on concrete dyadic partitions (concrete facts)
+        ps = []
+        off = 0.0
+        for k, shp in enumerate(parts):
+            mins = [off + 4.0 * k + ax for ax in range(len(shp))]
+            maxs = [m + 0.5 * n * (ax + 1) for ax, (m, n) in enumerate(zip(mins, shp))]
+            ps.append(odl.uniform_partition(mins, maxs, tuple(shp)) if len(shp) > 1 else
+                      odl.uniform_partition(mins[0], maxs[0], shp[0]))
+
+        def expect(order):
+            out = []
+            for k in order:
+                out += [list(v) for v in ps[k].cell_boundary_vecs]
+            return out
+
+        def same(tag, got, order):
+            exp = expect(order)
+            ok = got.ndim == len(exp) and all(np.allclose(got.cell_boundary_vecs[ax], exp[ax]) for ax in range(len(exp))
+                                              if len(got.cell_boundary_vecs[ax]) == len(exp[ax])) and \
+                all(len(got.cell_boundary_vecs[ax]) == len(exp[ax]) for ax in range(min(got.ndim, len(exp))))
+            ctx.fact(tag, ok, 'boundaries %s expected %s' % ([list(v) for v in got.cell_boundary_vecs], exp))
+            ctx.fact(tag + '/set-matches-grid', np.allclose(got.min_pt, [e[0] for e in exp]) and
+                     np.allclose(got.max_pt, [e[-1] for e in exp]) if got.ndim == len(exp) else False)
+        n = len(ps)
+        same('append-all-at-once', ps[0].append(*ps[1:]), list(range(n)))
+        same('insert-all-at-front', ps[-1].insert(0, *ps[:-1]), list(range(n)))
+        chained = ps[0]
+        for q in ps[1:]:
+            chained = chained.append(q)
+        same('append-chained', chained, list(range(n)))
+        if n >= 3:
+            same('insert-two-in-the-middle', ps[0].append(ps[-1]).insert(ps[0].ndim, *ps[1:-1]), list(range(n)))
         return
     if kind == 'squeeze':
         p, mins, maxs = _uniform(ctx, shape, [[False, False]] * len(shape))
